@@ -166,6 +166,30 @@ let handle = function
   | "negmsg" :: nx :: t :: qt :: signer :: gs ->
       show_o (fun (s, e) -> (match s with Secure -> "Secure" | Insecure -> "Insecure" | Bogus -> "Bogus" | Indeterminate -> "Indeterminate") ^ " " ^ string_of_int (int_of_n e))
         (negative_msg_state (b_of nx) (name_of_hex t) (n_of_s qt) (name_of_hex signer) (sgroups gs))
+  | "groups" :: ws ->
+      let rec recs = function [] -> []
+        | o :: c :: sg :: t :: id :: r -> { r_owner = name_of_hex o; r_class = n_of_s c; r_is_sig = b_of sg; r_type = n_of_s t; r_id = n_of_s id } :: recs r
+        | _ -> failwith "bad record words" in
+      let show g =
+        let (hd, rt) = match g.m_rrs, g.m_sigs with f :: _, _ -> (f, int_of_n f.r_type) | [], f :: _ -> (f, 46) | [], [] -> failwith "empty group" in
+        Printf.sprintf "%s/%d/%d/%d/%d" (hex_of_name hd.r_owner) (int_of_n hd.r_class) rt (List.length g.m_rrs) (List.length g.m_sigs) in
+      String.concat ";" (List.map show (groupset_of (recs ws)))
+  | "getnode" :: tbl :: steps ->
+      (* tbl: name:kind,...  kind S secure delegation, I insecure delegation, M secure intermediate, B bogus *)
+      let table = List.map (fun e -> match String.split_on_char ':' e with [n; k] -> (n, k) | _ -> failwith "bad table") (String.split_on_char ',' tbl) in
+      let zero = n_of_int 0 and ttl = n_of_int 300 in
+      let node st im = { cn_state = st; cn_intermediate = im; cn_created = zero; cn_valid_for = ttl } in
+      let mk nm signer =
+        if signer.cn_intermediate then node Bogus false
+        else match List.assoc_opt (hex_of_name nm) table with
+          | Some "S" -> node Secure false | Some "I" -> node Insecure false | Some "M" -> node Secure true
+          | Some "B" -> node Bogus false | _ -> failwith ("no class for " ^ hex_of_name nm) in
+      let step cache nmh =
+        match get_node zero [] (node Secure false) mk cache (name_of_hex nmh) with
+        | Ok r -> (r.l_cache, (if r.l_calls = [] then "-" else String.concat "," (List.map (fun (nm, _) -> hex_of_name nm) r.l_calls))
+                              ^ " " ^ (match r.l_node.cn_state with Insecure -> "Insecure" | _ -> "Bogus"))
+        | _ -> (cache, "Panic") in
+      let (_, last) = List.fold_left (fun (c, _) s -> step c s) ([], "-") steps in last
   | ["anchorttl"; n1; n2; maxv; dttl; rt; ot; exp] ->
       show_o sb (anchor_still_trusts (n_of_s n1) (n_of_s n2) (n_of_s maxv) (n_of_s dttl) { st_rr_ttl = n_of_s rt; st_orig_ttl = n_of_s ot; st_expiration = n_of_s exp })
   | ["childttl"; n1; n2; pl; dsttl; drt; dot; dexp; kttl; krt; kot; kexp] ->
